@@ -57,12 +57,13 @@ class UdpWorld:
         p2l = {"http": e2e.free_port(), "socks": e2e.free_port(), "quic": e2e.free_port(socket.SOCK_DGRAM)}
         l2 = [{"name": "http", "bind": "%s:%d" % (LOOP, p2l["http"])}, {"name": "socks", "bind": "%s:%d" % (LOOP, p2l["socks"])},
               {"name": "quic", "bind": "%s:%d" % (LOOP, p2l["quic"]), "tls": {"cert": crt, "key": key}}]
+        self.p2l = p2l
         self.p2 = e2e.Proxy(binary, l2, [{"name": "direct"}], [{"target": "direct"}], metrics=True, name=name + "-exit", timeouts={"idle": 600, "udp": udp_timeout})
         conns = [
             {"name": "direct"},
             {"name": "c_http", "type": "http", "server": LOOP, "port": p2l["http"]},
-            {"name": "c_quic_inline", "type": "quic", "server": LOOP, "port": p2l["quic"], "tls": {"insecure": True}, "inline_udp": True},
-            {"name": "c_quic_dgram", "type": "quic", "server": LOOP, "port": p2l["quic"], "tls": {"insecure": True}, "inline_udp": False},
+            {"name": "c_quic_inline", "type": "quic", "server": LOOP, "port": p2l["quic"], "tls": {"insecure": True}, "inlineUdp": True},
+            {"name": "c_quic_dgram", "type": "quic", "server": LOOP, "port": p2l["quic"], "tls": {"insecure": True}, "inlineUdp": False},
             {"name": "c_socks5", "type": "socks", "server": LOOP, "port": p2l["socks"]},
         ]
         self.socks, self.rev = {}, {}
